@@ -13,7 +13,7 @@ RULE = ("random programs (histories) of 8-40 operations over the heap alphabet (
         "executed while >= 2 other live objects existed")
 ASSUMED = ["element values are None, ints and integral floats; other value types move through the same code paths",
            "CPython: an object dies when its last reference goes (reference cycles are made on purpose to delay it)"]
-MIX = {"sel2d": 3, "window": 2, "fillna_w": 2, "fillna": 1, "dropna": 1, "vcat": 2, "newvec": 3, "newtab_dict": 2, "newtab_vecs": 2, "copy": 2, "slice": 2, "mask": 1, "colview": 4, "selcols": 1,
+MIX = {"sel2d": 3, "window": 2, "fillna_w": 2, "fillna": 1, "dropna": 1, "vcat": 2, "newvec": 3, "newtab_dict": 2, "newtab_vecs": 2, "copy": 2, "slice": 2, "mask": 1, "rowidx": 1, "colview": 4, "selcols": 3,
        "stack": 2, "append": 1, "join": 1, "sort": 1, "math": 1, "transpose": 1, "setv": 8, "sett": 4, "setattr": 3,
        "rename": 1, "fp": 1, "read": 1, "drop": 1}
 ORACLE_KEYS = ("C01",)
@@ -42,6 +42,12 @@ def planted():
                    ["sett", 0, ["cell", 1, ci, 77]], ["read", 1]])
         ps.append([tab, ["window", 0, ci], ["colview", 1, 0], ["setv", 2, ["int", 0], ["s", 99]], ["read", 0], ["rename", 2, "q"],
                    ["read", 0]])
+    # columns asked for by their advertised accessor (col<N>_ for an unnamed column, name__N for a repeated name) are copies too
+    for ks in ([0, 1], [1, 0], [1]):
+        for src in ([0, 1], [1, 1]):          # an unnamed and a named column; one name twice
+            ps.append([["newvec", [1, 2, 3], None, None], ["newvec", [4, 5, 6], "a", None], ["newtab_vecs", src],
+                       ["selcols", 0, ks, [True] * len(ks)], ["sett", 1, ["cell", 0, 0, 77]], ["read", 0],
+                       ["sett", 0, ["cell", 1, ks[0], 55]], ["read", 1], ["sett", 0, ["colslice", ks[0], 9]], ["read", 1]])
     return [{"prog": p} for p in ps]
 
 
